@@ -254,7 +254,8 @@ def rhs_str(r, st=None):
                 parts.append("{" + expr_str(p, st) + "}")
         return " ".join(parts)
     if t == "dist":
-        return f"{r[1]}({', '.join(expr_str(p, st) for p in r[2])})"
+        name = {"Exponential": "DistExp"}.get(r[1], r[1])     # Polar's source name of the exponential law
+        return f"{name}({', '.join(expr_str(p, st) for p in r[2])})"
     if t == "func":
         return f"{r[1]}({r[2]})"
     raise ValueError(r)
